@@ -26,7 +26,11 @@ CHECKS = {
              "real runtime (exception type, final bindings, recorded event stream = the evaluator's). C01_fun_semantics (model/FragFun.v) extends it to module-level functions, "
              "return, calls of named functions as right-hand sides and recursion on call-depth fuel, under every subscription, guard setting and guard policy (K-fun: whole-tree "
              "equality with the real rewriter, exception class, bindings and stream vs real runs, 16 programs per run); C01_prog_semantics (model/FragProg.v) is the same statement for "
-             "loops and functions together (while / else / break / continue in function bodies, return from inside loops, calls from loops, recursion; K-prog, 24 programs per run).",
+             "loops and functions together (while / else / break / continue in function bodies, return from inside loops, calls from loops, recursion; K-prog, 24 programs per run). "
+             "Docstring positions are a fact about syntax that no law sees (EMIT(.., ret='s') has the value of 's' but is no docstring): check_docs (model/Erase.v) is evaluated with "
+             "every certificate; C01_docstrings_kept / C01_docstrings_erased (Qed, closed): in every accepted output, for every function / class / module body anywhere in it "
+             "(pristine and guard-exempt copies included), a docstring at the head of the erased body is the first statement as written, and conversely; C01_rw_frag_docstring: "
+             "the model keeps a module docstring first, before init_module (K-syn generates such modules).",
         note="Outside the fragment the universal claim over programs is established program by program (translation validation with a verified checker), not by one theorem about a model "
              "of the rewriter; the laws are facts about CPython's evaluation, validated by the differential oracle, not proved. Trusted: Coq kernel + vm_compute; the "
              "AST exporter (interning, id canonicalisation); translators for node kinds, event names and reserved identifiers.",
@@ -150,7 +154,9 @@ CHECKS = {
              "program is equivalent to its source whatever the guard flags are. The quick check certifies ~90 generated programs rewritten with guards "
              "enabled and runs them with handlers that activate / deactivate the guards they are handed according to random schedules (results must equal the "
              "plain run), plus silence templates (a function guard activated at invocation k silences invocations k+1..) and 60 generated programs whose loop guards are "
-             "activated at first hand-out. On a fragment with while loops (model/FragLoop.v) guards are THEOREMS, for all primitive operations, subscriptions, guard settings, "
+             "activated at first hand-out (half of them with guard-exempt handlers, 30% with documented functions / classes defined inside a loop; their outputs - guarded-off copies "
+             "with the emissions kept for exempt handlers included - are certified too: check_erase and check_docs, C10_docstrings_kept / C10_docstrings_erased: a docstring of "
+             "the source is the first statement, as written, of the corresponding body in EVERY copy). On a fragment with while loops (model/FragLoop.v) guards are THEOREMS, for all primitive operations, subscriptions, guard settings, "
              "ARBITRARY guard policies (any function from the stream delivered so far to the guards that are on), modules, environments and fuel: C10_frag_results (any two runs "
              "end with the same exception and bindings), C10_frag_plain (those of the program as it is), C10_frag_stream (the subscribed events = the reference gated by the guards: "
              "iterations starting under an inactive body guard are silent, delivery resumes after deactivation). K-loop ties model, evaluator and reference to the real rewriter, "
